@@ -145,6 +145,15 @@ def run(chk, db, tier):
     chk.rule("R4", "AWSAccessKeyId / Expires / Signature via get_unique")
     chk.rule("R5", "sub-resource table strictly ascending and drawn from the model's query tags/members")
     chk.rule("R6", "layout of the V2 string to sign and base64(HMAC-SHA1)")
+    # observation, outside the stated iff: header auth signs the Date header as opaque text and never checks its freshness, so the
+    # signature of a presigned URL also verifies as a header-auth request carrying `Date: <that URL's Expires value>` (same string to sign)
+    # after the URL expired.  By the letter of the property a header-auth request whose signature matches is to be accepted.
+    for v in vs:
+        if v.kind == "v2-header" and not any(short(callee_def(t)) in ("parse", "parse_rfc2822", "parse_http_date", "from_str") and
+                                              any("date" in (c or "") for c in paths.str_args(v.body, t)) for _, t in v.body.calls()):
+            chk.advisory("v2_check_header_auth signs the Date header as text and does not check that it is a recent date: the signature of an expired "
+                         "presigned URL still verifies as header auth with `Date: <Expires>`; outside the property's iff (a matching header-auth "
+                         "signature is to be accepted), reported as an observation")
     chk.guard("R1", rule_r1, db)
     for v in vs:
         if v.kind == "v2-presigned":
